@@ -518,18 +518,20 @@ pub fn oracle(c: &Case, probe: &mut Probe) -> Result<(), Fail> {
 
 fn value() -> BoxedStrategy<V> {
     let leaf = (-5i64..100).prop_map(V::Int);
-    leaf.prop_recursive(2, 8, 3, |inner| {
+    let long = prop::collection::vec((-5i64..100).prop_map(V::Int), 10..70).prop_map(V::List);
+    let small = leaf.prop_recursive(2, 8, 3, |inner| {
         prop_oneof![
             (inner.clone(), inner.clone()).prop_map(|(a, b)| V::Pair(Box::new(a), Box::new(b))),
             prop::collection::vec(inner, 0..4).prop_map(V::List),
         ]
-    })
-    .boxed()
+    });
+    // occasionally a long vector: element order, the failing element's index and the draw order must not depend on its length
+    prop_oneof![9 => small, 1 => long].boxed()
 }
 
 fn spec() -> BoxedStrategy<OpSpec> {
     let leaf = prop_oneof![
-        8 => (0u8..6, 0u8..4, prop_oneof![3 => Just(None), 1 => (0u8..3).prop_map(Some)]).prop_map(|(id, draws, fail_on_call)| OpSpec::Probe { id, draws, fail_on_call }),
+        8 => (0u8..6, 0u8..4, prop_oneof![6 => Just(None), 2 => (0u8..3).prop_map(Some), 1 => (3u8..60).prop_map(Some)]).prop_map(|(id, draws, fail_on_call)| OpSpec::Probe { id, draws, fail_on_call }),
         1 => Just(OpSpec::Identity),
         1 => (0i64..9).prop_map(OpSpec::Constant),
     ];
